@@ -62,6 +62,10 @@ pub mod model
     pub static mut T_ACC: usize = 0;
     pub static mut T_DISK: usize = 0;
     pub static mut T_OK: bool = true;
+    /// a failed drain left part of the write cache on disk while async-std kept the whole cache
+    /// (`last_write_err` is handed out once, the cache is not cleared, the mode stays `Writing`):
+    /// the next drain sends the whole cache again, after the fragment that is already there
+    pub static mut T_DIRTY: bool = false;
     pub static mut T_AT: usize = NONE; // source id the temp inode was renamed to
     pub static mut TEMPS_CREATED: usize = 0;
 
@@ -98,6 +102,7 @@ pub mod model
         T_ACC = 0;
         T_DISK = 0;
         T_OK = true;
+        T_DIRTY = false;
         T_AT = NONE;
         TEMPS_CREATED = 0;
         OPS = 0;
@@ -187,8 +192,24 @@ pub mod model
         }
         if d > T_DISK
         {
+            if T_DIRTY
+            {
+                // the cache is re-sent from its start: the file now holds a duplicated fragment
+                T_OK = false;
+            }
             T_DISK = d;
             after_temp_change();
+        }
+    }
+
+    /// The drain of a failing operation: some of the cache may have reached the disk before the error.
+    pub unsafe fn failed_drain(upto: usize)
+    {
+        let before = T_DISK;
+        drain_upto(upto);
+        if T_DISK > before
+        {
+            T_DIRTY = true;
         }
     }
 
@@ -349,6 +370,7 @@ pub mod fs
                 T_ACC = 0;
                 T_DISK = 0;
                 T_OK = true;
+                T_DIRTY = false;
                 T_AT = NONE;
                 TEMPS_CREATED += 1;
                 Ok(File {
@@ -368,7 +390,7 @@ pub mod fs
                 }
                 if fail
                 {
-                    drain_upto(DRAIN[k & 31]);
+                    failed_drain(DRAIN[k & 31]);
                     return Err(io::injected());
                 }
                 drain_upto(usize::MAX);
@@ -397,7 +419,7 @@ pub mod fs
                 if fail
                 {
                     // a failing write may still have pushed out part of what was cached
-                    drain_upto(DRAIN[k & 31]);
+                    failed_drain(DRAIN[k & 31]);
                     return Err(io::injected());
                 }
                 let start = T_ACC;
@@ -436,7 +458,7 @@ pub mod fs
                 }
                 if fail
                 {
-                    drain_upto(DRAIN[k & 31]);
+                    failed_drain(DRAIN[k & 31]);
                     return Err(io::injected());
                 }
                 drain_upto(usize::MAX);
@@ -459,7 +481,7 @@ pub mod fs
                 if fail
                 {
                     SILENT_FAILURES += 1;
-                    drain_upto(DRAIN[k & 31]);
+                    failed_drain(DRAIN[k & 31]);
                     return;
                 }
                 drain_upto(usize::MAX);
